@@ -37,7 +37,7 @@ def make_cases(tier, seed):
         valid, longer, invalid, _ = GR.inputs_for(g, rng, maxlen=5 if tier == "quick" else 6)
         words = list(valid) + list(longer) + list(invalid)
         for partial in (0, 1):
-            fl = dict(flags, partial=partial)
+            fl = dict(flags, partial=partial, seq=1)
             cid = "g%d_%s_p%d" % (gi, table, partial)
             cases.append(Case(cid, g.text(inline=(gi % 3 == 0)), [GR.render(w) for w in words],
                               algo="LR", table=table, run="LR", flags=fl,
@@ -117,6 +117,20 @@ def run(rep, tier, seed):
             samples.append(dict(shape=r.case.meta["shape"], grammar=r.case.grammar, table=r.case.table,
                                 flags=r.case.flags, input=GR.render(w[0]) if w else "",
                                 real=r.results.get(("LR", 0), "")[:200]))
+    # one parser instance used for the whole input sequence must answer as fresh parsers do
+    n_seq = 0
+    for tag, r, w in accepted:
+        for i in range(len(w)):
+            a, b = r.results.get(("LR", i)), r.results.get(("LRS", i))
+            if a is None or b is None:
+                continue
+            n_seq += 1
+            if a != b:
+                rep.violation("reused-parser-differs", "a parser instance that already parsed other inputs returns a "
+                              "different result (for Ok: a tree that is not the derivation of this input)",
+                              dict(grammar=r.case.grammar, table=r.case.table, flags=r.case.flags,
+                                   sequence=[GR.render(x) for x in w[:i + 1]], input=GR.render(w[i]), fresh=a, reused=b))
+                break
     # partial parsing never turns an accepted input into a rejected / differently parsed one (real code)
     n_partial_pairs = 0
     byid = {tag: (r, w) for tag, r, w in accepted}
@@ -150,7 +164,7 @@ def run(rep, tier, seed):
              "non-trivial = inputs the real parser accepted (a tree was built and judged by derivation_b)",
         grammars_generated=len(cases), grammars_accepted=len(accepted), grammars_rejected_conflicts=rejected,
         grammars_compiler_error=errors, shapes=shapes,
-        inputs_ok=n_ok, inputs_err=n_err, inputs_other=n_other, partial_pairs_compared=n_partial_pairs,
+        inputs_ok=n_ok, inputs_err=n_err, inputs_other=n_other, partial_pairs_compared=n_partial_pairs, reused_parser_results_compared=n_seq,
         samples=samples)
     rep.assumptions = ["token-level: each terminal is a distinct one-letter string recognizer, tokens separated by "
                        "one space (lexical disambiguation is C06's subject)",
